@@ -195,6 +195,25 @@ PROPS = {
         "assumptions": ["entries of one key are listed in ascending version-id order (oldest first), as the implementation does; the property fixes no order within a key"],
         "timeout": {"quick": 900, "thorough": 3000},
     },
+    "C08": {
+        "title": "Corrupt or short uploads are rejected and never change stored state",
+        "harness": "c08",
+        "model": "Model/PutPath.v put_request / part_request (validation order of createObject and putMultipartUploadPart, metadataHeaders size, hashingReader digest test, ReadAll declared-length test, base64 decoding) over Model/Mem.v and Model/Uploader.v",
+        "rule": "per backend x integrity check on/off, metadata limit 300: PUT over an existing object and over an absent key with "
+                "Content-MD5 in {absent, good, wrong, malformed, 5-byte digest, unpadded, empty header} x declared length {exact, short "
+                "by 1, long by 1}; missing / non-numeric / negative / empty Content-Length; empty body with a declared length; body "
+                "reader failing after every k in 0..len; keys of 1023/1024/1025 bytes; metadata totalling limit-1/limit/limit+1; the "
+                "same digest x length matrix, bad part numbers and failing readers for upload-part; after each request a snapshot "
+                "(GET+HEAD of the previous object incl. metadata, GET of the absent key, bucket listing, ListParts of the pending "
+                "upload) is compared with the model, whose state is unchanged by a rejected request. distinct_nontrivial = distinct "
+                "(backend, integrity, target, digest kind, length delta / failure point).",
+        "explanation": "Theorems: the modelled upload path accepts iff the digest (when checked) matches the bytes received and the "
+                       "declared length equals the body length; every rejection — for every reader failure point k — returns the state "
+                       "unchanged. Tie: responses and before/after snapshots of the Go handlers on all six backends vs the extracted "
+                       "model; the accept/reject decision is the property-level observable, the precise error code a model-level one.",
+        "assumptions": ["requests are driven in-process: the body reader is not limited to Content-Length bytes as a real net/http server would do"],
+        "timeout": {"quick": 900, "thorough": 3000},
+    },
 }
 
 # properties whose check is not built yet are listed so the manifest stays honest
